@@ -1,8 +1,9 @@
 (* C18 - import renaming is prefix-exact and keeps local names bound.
    Only statements, `exact`, and Print Assumptions here; proofs are in Rename/*Proofs.v. *)
 From Coq Require Import NArith List Bool String.
+From Verif Require Import Scope.PySyntax Scope.PySem Rename.Program Rename.ProgramProofs.
 From Verif Require Import Base.Chars Base.StrX Rename.Replace Rename.WordSub
-                          Rename.ReplaceProofs Rename.WordSubProofs.
+                          Rename.ReplaceProofs Rename.WordSubProofs Rename.WordSubDottedProofs Rename.MapProofs.
 Import ListNotations.
 
 (* exactly the imports whose dotted path is OLD or begins with OLD followed by a dot are rewritten,
@@ -40,12 +41,129 @@ Theorem C18_wordsub_exact : forall (W : ch -> bool) (old new : str),
 Proof. exact wordsub_tokens. Qed.
 Print Assumptions C18_wordsub_exact.
 
+(* ---- body substitution for a DOTTED OLD (any OLD that begins and ends with a word character) ----
+   occurs_at prev t : t = OLD ++ post, the character before is not a word character (or there is none), post is
+   empty or starts with a non-word character.  `.` is a non-word character: `x.pkg.sub` and `pkg.sub.y` contain
+   an occurrence, `pkg.subx` and `xpkg.sub` do not. *)
+Theorem C18_dotted_name_edges : forall W s, dotted_name W s -> edge_word W s.
+Proof. exact dotted_edge. Qed.
+Print Assumptions C18_dotted_name_edges.
+
+(* the regex test at one position is exactly "a delimited occurrence starts here" *)
+Theorem C18_match_here_iff : forall W old, edge_word W old ->
+  forall prev t, match_here W old prev t = true <-> occurs_at W old prev t.
+Proof. exact match_here_iff. Qed.
+Print Assumptions C18_match_here_iff.
+
+(* relational specification (leftmost, non-overlapping, everything else copied): the scan satisfies it and
+   is the only function that does *)
+Theorem C18_wordsub_rewrites : forall W old new, edge_word W old ->
+  forall text out, Rewrites W old new None text out <-> out = wordsub W old new text.
+Proof. exact rewrites_iff. Qed.
+Print Assumptions C18_wordsub_rewrites.
+
+(* decomposition: text = pre ++ OLD ++ post with the occurrence delimited and no occurrence starting inside pre:
+   pre is copied, OLD becomes NEW, the scan continues behind the occurrence; a text without occurrence is copied *)
+Theorem C18_wordsub_leftmost : forall W old new, edge_word W old -> forall pre post,
+  no_occurrence_in W old None pre (old ++ post) ->
+  Wopt W (lastopt None pre) = false -> boundary W post ->
+  wordsub W old new (pre ++ old ++ post) = pre ++ new ++ ws W old new (lastopt None old) post 0.
+Proof. exact wordsub_leftmost. Qed.
+Print Assumptions C18_wordsub_leftmost.
+
+Theorem C18_wordsub_no_occurrence : forall W old new, edge_word W old -> forall text,
+  no_occurrence_in W old None text [] -> wordsub W old new text = text.
+Proof. exact wordsub_no_occurrence. Qed.
+Print Assumptions C18_wordsub_no_occurrence.
+
+(* ---- multi-entry maps: sequential application in map order ---- *)
+Theorem C18_map_composition : forall m1 m2 i,
+  transform_import (m1 ++ m2) i = transform_import m2 (transform_import m1 i).
+Proof. exact transform_import_app. Qed.
+Print Assumptions C18_map_composition.
+
+(* entries whose keys do not extend one another nor one another's replacement: the order is irrelevant ... *)
+Theorem C18_map_order_irrelevant : forall m m', Permutation.Permutation m m' -> pairwise_indep m ->
+  forall i, transform_import m i = transform_import m' i.
+Proof. exact transform_import_order_irrelevant. Qed.
+Print Assumptions C18_map_order_irrelevant.
+
+(* ... and the map acts as its unique matching entry *)
+Theorem C18_map_unique_match : forall m i, ForallOrdPairs indep m ->
+  transform_import m i =
+  match find (fun e : entry => matches (fst e) i) m with
+  | Some e => replace (fst e) (snd e) i
+  | None => i
+  end.
+Proof. exact transform_import_unique_match. Qed.
+Print Assumptions C18_map_unique_match.
+
+(* nested keys (the code's TODO about a.b=>x together with a.b.c=>y): the shorter key listed first shadows the
+   longer one; the longer key listed first gives most-specific-wins *)
+Theorem C18_nested_shorter_first_shadows : forall k1 v1 k2 v2 i,
+  is_prefix (parts k1) (parts k2) = true -> incomparable (parts k2) (parts v1) ->
+  transform_import [(k1, v1); (k2, v2)] i = replace k1 v1 i.
+Proof. exact nested_shorter_first_shadows. Qed.
+Print Assumptions C18_nested_shorter_first_shadows.
+
+Theorem C18_nested_longer_first_specific : forall k1 v1 k2 v2 i, incomparable (parts k1) (parts v2) ->
+  transform_import [(k2, v2); (k1, v1)] i = if matches k2 i then replace k2 v2 i else replace k1 v1 i.
+Proof. exact nested_longer_first_specific. Qed.
+Print Assumptions C18_nested_longer_first_specific.
+
+(* the full statement "the order of a map is irrelevant" is false for nested prefixes (imports and body text) *)
+Theorem C18_map_order_irrelevant_refuted :
+  exists m m' i, Permutation.Permutation m m' /\ transform_import m i <> transform_import m' i.
+Proof. exact order_irrelevant_refuted. Qed.
+Print Assumptions C18_map_order_irrelevant_refuted.
+
+Theorem C18_text_order_irrelevant_refuted :
+  exists m m' s, Permutation.Permutation m m' /\ transform_text is_ident_char m s <> transform_text is_ident_char m' s.
+Proof. exact text_order_irrelevant_refuted. Qed.
+Print Assumptions C18_text_order_irrelevant_refuted.
+
 (* where NEW paths denote the same objects as OLD paths, a rewritten import yields the same object *)
 Theorem C18_replace_preserves_object : forall (obj : Type) (resolve : list str -> option obj) (old new : str),
   (forall rest, resolve (parts new ++ rest) = resolve (parts old ++ rest)) ->
   forall i, resolve (parts (fullname (replace old new i))) = resolve (parts (fullname i)).
 Proof. exact replace_preserves_object. Qed.
 Print Assumptions C18_replace_preserves_object.
+
+(* ---- program level, on C02/C05's reference semantics (Scope/PySem.v), MODULE-LEVEL FRAGMENT ----
+   rename_program: top-level imports rewritten with Import.replace on id lists and re-expressed at the same line,
+   Name / attribute chains whose dotted prefix is OLD renamed.  in_domain old new bi ns p (decidable) is
+   old_reached_only_through_matching_toplevel_imports for programs made of import / from-import / expression /
+   single-name assignment statements over Name, attribute and operator expressions (no def, class, lambda,
+   comprehension, compound statement):  every binding of the root of OLD is an import whose path and local name are
+   OLD or under OLD; the root of OLD is read only as OLD or under OLD; the root of NEW (if different) is neither
+   bound nor read; every import is expressible before and after.
+   The full clause (nested scopes, compound statements) is NOT proved; it is decided by the execution oracle. *)
+Theorem C18_behaviour_preserved_flat : forall old new bi ns p, in_domain old new bi ns p = true ->
+  pysem bi ns (rename_program old new p) = map (rename_rd old new) (pysem bi ns p).
+Proof. exact behaviour_preserved_flat. Qed.
+Print Assumptions C18_behaviour_preserved_flat.
+
+(* outside the domain (DESIGN domain note): `import pkg; pkg.sub.f` with pkg.sub -> zz.qq reads the unbound zz *)
+Theorem C18_behaviour_preserved_refuted :
+  exists old new p, pysem [] [] (rename_program old new p) <> map (rename_rd old new) (pysem [] [] p) /\
+                    pysem [] [] p = [(2, 10%N, Bound (BImp 1 ([10%N], [10%N])))] /\
+                    pysem [] [] (rename_program old new p) = [(2, 40%N, Unbound)].
+Proof. exact behaviour_preserved_refuted. Qed.
+Print Assumptions C18_behaviour_preserved_refuted.
+
+(* known finding C18-a: `import pkg.sub; pkg.k` with pkg.sub -> zz.qq: the renamed import stops binding pkg *)
+Theorem C18_root_unbound_refuted :
+  exists old new p, in_domain old new [] [] p = false /\
+    pysem [] [] p = [(2, 10%N, Bound (BImp 1 ([10%N; 20%N], [10%N; 20%N])))] /\
+    pysem [] [] (rename_program old new p) = [(2, 10%N, Unbound)].
+Proof. exact root_unbound_refuted. Qed.
+Print Assumptions C18_root_unbound_refuted.
+
+Example C18_behaviour_preserved_nonvacuous :
+  in_domain [10%N; 20%N] [40%N; 50%N] [] [] example_program = true /\
+  pysem [] [] (rename_program [10%N; 20%N] [40%N; 50%N] example_program) =
+    [(3, 40%N, Bound (BImp 1 ([40%N; 50%N], [40%N; 50%N]))); (3, 31%N, Bound (BImp 2 ([40%N; 50%N; 30%N], [31%N])))].
+Proof. exact behaviour_preserved_nonvacuous. Qed.
 
 (* non-vacuity: concrete instances exercising the rewriting branches *)
 Example C18_nonvacuous_replace :
@@ -56,3 +174,9 @@ Proof. vm_compute. repeat split. Qed.
 Example C18_nonvacuous_wordsub :
   wordsub is_ident_char (dec "foo"%string) (dec "bar"%string) (dec "foo+foox (foo) xfoo .foo"%string) = dec "bar+foox (bar) xfoo .bar".
 Proof. vm_compute. reflexivity. Qed.
+Example C18_nonvacuous_wordsub_dotted :
+  wordsub is_ident_char (dec "pkg.sub"%string) (dec "zz.qq"%string)
+          (dec "x.pkg.sub + pkg.sub.y(pkg.subx, xpkg.sub) ; pkg_sub pkg.sub"%string)
+  = dec "x.zz.qq + zz.qq.y(pkg.subx, xpkg.sub) ; pkg_sub zz.qq"%string
+  /\ edge_word is_ident_char (dec "pkg.sub"%string).
+Proof. split; [vm_compute; reflexivity|]. repeat split; vm_compute; congruence. Qed.
